@@ -291,7 +291,7 @@ def generate(path, mod, isa_path, ea_field="f_StepInfo_EA"):
     out.append("\n".join(lines))
     out.append(LEN_AGREES % {"mod": mod})
     out.append(INSTANCE % {"mod": mod})
-    out.append("Print Assumptions C07_contract_%s.\nPrint Assumptions C07_len_%s.\nPrint Assumptions C07_partial_%s.\nPrint Assumptions C07_partial_patched_%s.\n" % (mod, mod, mod, mod))
+    out.append("Print Assumptions C07_contract_%s.\nPrint Assumptions C07_len_%s.\nPrint Assumptions c_br_contract.\nPrint Assumptions C07_partial_%s.\nPrint Assumptions C07_partial_patched_%s.\n" % (mod, mod, mod, mod))
     files["C07_%s" % mod] = "\n".join(out)
     return files, {"lemmas": lemmas, "straight": straight, "proved": proved, "unproved": unproved, "skipped": skipped,
                    "needed": sorted(needed), "modes": modes, "br_ops": br_ops, "br_unproved": br_unproved}
